@@ -6,8 +6,9 @@ REPO = os.environ.get("CF_REPO", "/repo")
 PY = "/venv/bin/python"
 COQ = os.path.join(VERIF, "coq")
 DRIVER = os.path.join(VERIF, "ocaml", "_build", "driver")
-EVID = os.path.join(VERIF, "evidence")
-REPLAYS = os.path.join(VERIF, "replays")
+# the registered commands never set these two: they exist for tools/mutants.py, which runs many checks at once against scratch copies of /repo
+EVID = os.environ.get("CF_EVIDENCE_DIR") or os.path.join(VERIF, "evidence")
+REPLAYS = os.environ.get("CF_REPLAY_DIR") or os.path.join(VERIF, "replays")
 SCRATCH = os.path.join(VERIF, ".scratch")
 
 # ---------------------------------------------------------------- graphs
